@@ -130,6 +130,31 @@ Theorem C13_caller_sees_too_large : forall v,
 Proof. exact caller_sees_too_large. Qed.
 Print Assumptions C13_caller_sees_too_large.
 
+(* ... provided the answer reaches it.  On tcp and unix the pinned handler hangs up right after
+   the error frame while the client may still be writing the body it announced; the client then
+   reports whichever of "frame decoded" / "write failed" its two goroutines reach first.
+   REFUTED for the pinned tree (linger = false): *)
+Theorem C13_caller_outcome_refuted_socket_teardown :
+  ~ (forall tr v still_writing r, rejected v = true ->
+       caller_outcome false tr v still_writing r = OTooLarge).
+Proof. exact caller_outcome_refuted. Qed.
+Print Assumptions C13_caller_outcome_refuted_socket_teardown.
+
+(* PARTIAL, under the exact guard: the server lingers, or the client had finished writing, or
+   the frame wins the race, or the transport is not tcp/unix *)
+Theorem C13_caller_outcome_partial : forall linger tr v still_writing r,
+  rejected v = true ->
+  (linger = true \/ still_writing = false \/ r = FrameFirst \/ ~ In tr [Tcp; Unix]) ->
+  caller_outcome linger tr v still_writing r = OTooLarge.
+Proof. exact caller_outcome_too_large. Qed.
+Print Assumptions C13_caller_outcome_partial.
+
+(* with hooks/c13-fix-socket-reject-linger.patch: every schedule *)
+Theorem C13_caller_outcome_lingering : forall tr v still_writing r,
+  rejected v = true -> caller_outcome true tr v still_writing r = OTooLarge.
+Proof. exact caller_outcome_lingering. Qed.
+Print Assumptions C13_caller_outcome_lingering.
+
 (* only the exact text is: any other error frame is an InvalidResponseError *)
 Theorem C13_too_large_only_for_the_text : forall b,
   client_decode (RpFrame true b) = OTooLarge <-> b = too_large_text.
@@ -277,6 +302,12 @@ Example guard_satisfiable :
   pinned_guard Udp (Some 100) 100 = true /\ framed Udp (Some 100) 100 = Some 100 /\
   truthful Websocket None 100 = true /\ truthful Udp (Some 7) 7 = true /\ 0 <= 7 <= 10.
 Proof. repeat split; try reflexivity; lia. Qed.
+
+Example teardown_race_witness :
+  caller_outcome false Unix (admission pinned_sites Unix 65536 (Some 655360) 655360) true TeardownFirst = OOtherError /\
+  caller_outcome false Unix (admission pinned_sites Unix 65536 (Some 655360) 655360) true FrameFirst = OTooLarge /\
+  caller_outcome true Unix (admission pinned_sites Unix 65536 (Some 655360) 655360) true TeardownFirst = OTooLarge.
+Proof. repeat split. Qed.
 
 Example guard_violable :
   pinned_guard NetHttp None 100 = false /\ pinned_guard Udp (Some 5) 100 = false /\ 0 <= 100.
